@@ -50,7 +50,7 @@ AUS = ["Type_Scan.0:40", "Type_Scan.1:40", "strcmp.0:26", "memcpy.0:8", "memset.
 OBLIGATIONS = list(OBLIGATIONS) + [
     Ob("alloc_layer.case%d%s" % (c_, "" if cfg == "default" else "." + cfg), "C17/alloc_layer.c", defs=["CASE=%d" % c_], replace=["Alloc.c"], config=cfg, unwind=12, unwindset=AUS, checks=["bounds", "pointer"], tiers=Q,
        desc="alloc/new x standard|root|raw: registration and root flag; del x standard|root|raw (%s)" % cfg)
-    for c_ in (1, 2) for cfg in ("default", "ndebug")]
+    for c_ in (1, 2) for cfg in ("default", "ndebug", "ngc")]
 LEVEL_TEXT = ("Bounded model checking of the real GC.c registry: set / mem / rem / sweep as inductive steps from an ARBITRARY valid registry (occupancy, probe layout, root flags, "
               "marks) with the address hash uninterpreted (any collision pattern), one obligation per home slot; the mark phase decomposed into GC_Mark / GC_Mark_Item / GC_Recurse "
               "contracts. 5-slot registry quick, 11-slot thorough.")
